@@ -203,7 +203,21 @@ def unit_add_extensive(twin=False):
         U.discharge_eq_real(r, "%s_key.this'[k]==%sother[k]*factor" % ("present" if present else "absent", "this[k]+" if present else ""), list(s.pc), new, spec)
         ws = [(k, i) for (k, i, v) in U.iter_writes(s) if k[1] in ("#mval",) and not (i[0] is THIS and i[1] is key)]
         r.add("%s_key.frame_only_key_k" % ("present" if present else "absent"), DISCHARGED if not ws else FAILED, "term-inspection", 0, repr(ws)[:150], kind="frame")
-    r.add("reach.both", DISCHARGED if seen == {"present", "absent"} else UNDECIDED, "symex", 0, repr(sorted(seen)), kind="vacuity")
+    # the loop is skipped only for factor == 0 (adding zero times anything is the identity)
+    fn2, ex2, fin, info2 = U.run_function(rel, "cxxNameDouble::add_extensive", modes={0: "havoc"}, ctx=mkctx())
+    nsk = nlp = 0
+    P1 = tm.sym("P1_factor", "R")
+    for s in fin:
+        if s.status not in ("ret", "run"):
+            continue
+        entered = bool(info2["entry"].get(0)) and any(all(p in s.pc for p in e.pc) for e in info2["entry"][0])
+        if not entered:
+            nsk += 1
+            U.discharge_valid(r, "early_return.only_for_factor_zero", list(s.pc), tm.eq(P1, tm.num(0)) if not twin else tm.lt(P1, tm.num(0)))
+        else:
+            nlp += 1
+            U.discharge_valid(r, "every_entry_visited.unless_factor_zero", list(s.pc), tm.not_(tm.eq(P1, tm.num(0))))
+    r.add("reach.both", DISCHARGED if seen == {"present", "absent"} and nsk and nlp else UNDECIDED, "symex", 0, "%r %d/%d" % (sorted(seen), nsk, nlp), kind="vacuity")
     return r
 
 
